@@ -34,7 +34,7 @@ STYLES = ['google', 'freeform', 'auto']
 def required_cells(tier):
     return ['agree:google', 'agree:freeform', 'agree:auto', 'feature:async', 'feature:method:prop',
             'feature:method:static', 'feature:method:cls', 'feature:method:wrapped', 'feature:top:deco',
-            'feature:top:main', 'feature:method:setter', 'feature:top:ctxmgr', 'feature:top:subclass', 'feature:module-dir-hook', 'feature:top:handler', 'feature:top:matcharm', 'feature:top:tryelse', 'feature:top:forbody', 'feature:method:setter_stacked', 'feature:method:getter_again', 'feature:top:notmain', 'feature:method:ctxmethod', 'feature:top:rewrap', 'feature:method:rewrapped', 'feature:method:private', 'feature:top:odeco', 'feature:method:owrapped',
+            'feature:top:main', 'feature:method:setter', 'feature:top:ctxmgr', 'feature:top:subclass', 'feature:module-dir-hook', 'feature:top:handler', 'feature:top:matcharm', 'feature:top:tryelse', 'feature:top:forbody', 'feature:method:setter_stacked', 'feature:method:getter_again', 'feature:top:notmain', 'feature:method:ctxmethod', 'feature:top:rewrap', 'feature:method:rewrapped', 'feature:method:private', 'feature:top:odeco', 'feature:method:owrapped', 'feature:file-is-a-package-main',
             'feature:encoding:utf-8', 'feature:encoding:utf-8-sig', 'feature:encoding:latin-1',
             'feature:wraps-aliased-imports-from-a-sibling']
 
@@ -51,6 +51,18 @@ def check_module(ctx, idx, seed):
     spec = gm.ModuleGen(rng, idx).generate()
     modname = 'sd_%d_%d_%d_zz' % (ctx.seed, ctx.shard, idx)
     path = os.path.join(ctx.tmp, modname + '.py')
+    pkg_dir = None
+    if idx % 7 == 3:
+        # the module is the __main__.py of a package whose __init__.py has a doctest of its own: both analyses look at
+        # the file they were given, not at the package
+        pkg_dir = os.path.join(ctx.tmp, modname)
+        os.mkdir(pkg_dir)
+        mi = 'U%dx9797_0' % idx
+        with open(os.path.join(pkg_dir, '__init__.py'), 'w') as f:
+            f.write('def api_zz():\n    """\n    Example:\n        >>> print("%s")\n        %s\n    """\n    return 1\n' % (mi, mi))
+        spec.forbidden[mi] = 'defined in the __init__.py of the package, the file under analysis is its __main__.py'
+        spec.features.add('file-is-a-package-main')
+        path = os.path.join(pkg_dir, '__main__.py')
     # the encoding of the file: utf-8, utf-8 with a byte order mark, or latin-1 declared by a cookie; a doctest with
     # non-ASCII text shows whether both analyses read the same characters (findings F33 / F33b)
     enc = ['utf-8', 'utf-8', 'utf-8-sig', 'latin-1'][idx % 4]
@@ -135,6 +147,12 @@ def check_module(ctx, idx, seed):
                        limit=1)
     finally:
         os.unlink(path)
+        if pkg_dir is not None:
+            import shutil
+            shutil.rmtree(pkg_dir, ignore_errors=True)
+            for k in list(sys.modules):
+                if k == modname or k.startswith(modname + '.'):
+                    del sys.modules[k]
         if sib_path is not None:
             os.unlink(sib_path)
             sys.modules.pop(os.path.basename(sib_path)[:-3], None)
